@@ -2,12 +2,16 @@ SPECIFICATION Spec
 CONSTANTS
   Variants = {"deadline"}
   Relays = {1, 2}
+  ProvSet <- MCProvNone2
   Values = {0, 1, 2, 3}
   CfgSet <- MCCfgPair
+  TableSet = {"A"}
   BuilderSet = {"std", "plus", "excl", "half"}
   AnswerSet <- MCAnswersSingle
   Headers = {1, 2}
   MaxRounds = 2
   Keys = {1}
   MaxAuctions = 1
-INVARIANTS TypeOK WinnerIsArgmax OnlyEligibleWin ProvidersOfferedWinner NoWinnerIffNone ParticipationSound ArrivedConsidered CacheRight ServedRight
+  MaxOpen = 1
+  Deviation = "none"
+INVARIANTS TypeOK WinnerIsArgmax OnlyEligibleWin ProvidersOfferedWinner NoWinnerIffNone ParticipationSound ArrivedConsidered CacheRight ServedRight HistoryShape
